@@ -24,11 +24,6 @@ import (
 	"verif/txgen"
 )
 
-// Exclusion tag of the open finding "the fee-option update function sets the process-wide fee
-// option also on the CheckTx path" (replays/C07/kf-checked-finalize-sets-fee-option.json): while it
-// is open no config-update proposal changes feeOption.*, so a checked PROPOSAL_FINALIZE cannot reach it.
-const exclFeeOpt = "C07:checktx-finalize-sets-fee-option"
-
 // forge returns a variant of tx with identical RawTx whose first signature entry is tampered:
 // how = 0 flips a bit of the signature bytes, 1 replaces them by a constant pattern, 2 puts
 // another account's public key next to the original signature bytes.
@@ -260,7 +255,7 @@ func execute(h *run.H, tr *hist.Trace, draw func(w *hist.World) ([]hist.Step, []
 				if checked.Panicked {
 					return false
 				}
-				if !strings.HasPrefix(r.Log, "checkTx duplicated") {
+				if !strings.HasPrefix(r.Log, "checkTx duplicated") && !strings.Contains(r.Log, "not in canonical encoding") {
 					aimed = curGov
 				}
 				debugf("h=%d check %s %s code=%d gas=%d log=%.150s events=%d\n", b.Height, at, c.TxKind, r.Code, r.GasUsed, r.Log, len(r.Events))
@@ -445,15 +440,6 @@ func TestC07(t *testing.T) {
 	defer h.Finish()
 	h.SetRule("history x CheckTx schedule on a twin pair: one replica gets 0-3 CheckTx calls at every ABCI boundary (before/after BeginBlock, after every DeliverTx, after EndBlock, after Commit) drawn from the block's own future transactions, fresh generator transactions, invalid bytes and state-changing kinds (PROPOSAL_FINALIZE, EXPIRE_VOTES, ETH_REPORT_FINALITY_MINT, PROPOSAL_VOTE, STAKE/UNSTAKE, OLVM); the twin gets none; non-trivial = at least one injected CheckTx was accepted (code 0) and wrote to the check state (judged from its response: a fee was charged, i.e. GasUsed > 0, or the free public kinds returned the event of their writing branch) at a boundary that is directly followed by a block hook (after Commit / before BeginBlock, or after the last DeliverTx before EndBlock); distinct by trace hash")
 	maxBlocks := h.Scale(22, 40)
-	if h.Excluded(exclFeeOpt) {
-		var keep []string
-		for _, c := range hist.ConfigUpdates {
-			if !strings.HasPrefix(c, "feeOption.") {
-				keep = append(keep, c)
-			}
-		}
-		hist.ConfigUpdates = keep
-	}
 	rapid.Check(t, func(rt *rapid.T) {
 		p := hist.GenParams(rt, fmt.Sprint(h.Seed))
 		u := hist.NewU(rt)
